@@ -40,7 +40,19 @@ func c06Perm(u *user.User, filePath, permissionType string) bool { return true }
 // VerifC06Session: a whole serverless mapreduce run in process over nfiles
 // files of nlines lines behind a cat limiter of the given capacity: the final
 // result must count every line of every file exactly once, and the run ends.
+var c06Pace time.Duration
+
+// VerifC06SlowSession: the same run with files that are read slowly (700 ms per
+// line), so that the server side aggregation spans several of its 1 s
+// serialisation intervals.
+func VerifC06SlowSession(nfiles, nlines, cats int) {
+	c06Pace = 700 * time.Millisecond
+	VerifC06Session(nfiles, nlines, cats)
+}
+
 func VerifC06Session(nfiles, nlines, cats int) {
+	pace := c06Pace
+	c06Pace = 0
 	lg := dlog.VerifInstall(source.Client)
 	_ = lg
 	config.Server.MaxConcurrentCats = cats
@@ -54,6 +66,14 @@ func VerifC06Session(nfiles, nlines, cats int) {
 			content = append(content, ("g=k" + string(rune('0'+f)) + "|x=1\n")...)
 		}
 		files = append(files, fs.VerifProvideNamed("/f"+string(rune('0'+f)), content))
+		if pace > 0 {
+			var chunks []int
+			for i := 0; i < nlines; i++ {
+				chunks = append(chunks, len(content)/nlines)
+			}
+			fs.VerifFiles["/f"+string(rune('0'+f))].Chunks = chunks
+			fs.VerifFiles["/f"+string(rune('0'+f))].Pace = pace
+		}
 	}
 	var args config.Args
 	args.QueryStr = "select count(x),g group by g interval 1 logformat generickv"
@@ -93,6 +113,7 @@ func VerifC06Session(nfiles, nlines, cats int) {
 		// known: (a) the server side aggregator stops at the first moment no further file is
 		// registered although reads are still queued behind the limiter; (b) a per-server
 		// result that could not be merged at once is never merged before the final report
+		verifrt.Assert(total <= want, "lines are counted more than once in the final result")
 		verifrt.Finding("C06-KF1", total < want)
 		verifrt.Reach("lines-missing")
 		return
